@@ -17,3 +17,22 @@ def build(reg):
         trusted=["torch.searchsorted returns the insertion index of a sorted sequence (A4)",
                  "element-wise torch semantics of the tensor subset used (A3); floats as reals (A1)"],
     )
+
+
+# negative controls (thorough tier): (name, file, old text, new text)
+CONTROLS = [('swap the harmonic-mean weights',
+  'emu_base/math/pchip_torch.py',
+  'w_l = h_l + 2.0 * h_r',
+  'w_l = 2.0 * h_l + h_r'),
+ ('sign error in the quadratic coefficient',
+  'emu_base/math/pchip_torch.py',
+  'p2 = (3.0 * delta - 2.0 * d[:-1] - d[1:]) / h',
+  'p2 = (3.0 * delta - 2.0 * d[:-1] + d[1:]) / h'),
+ ('clamp the interval index one too far',
+  'emu_base/math/pchip_torch.py',
+  'return i.clamp(0, self.x.numel() - 2)',
+  'return i.clamp(0, self.x.numel() - 1)'),
+ ('strict end-slope limiter (the repaired defect)',
+  'emu_base/math/pchip_torch.py',
+  'mask_sign_change = d_end * s_l <= 0',
+  'mask_sign_change = d_end * s_l < 0')]
